@@ -121,7 +121,7 @@ class World:
             return ('struct', 'HeaderView')
         if t == 'Qcow2DevParams':
             return ('struct', 'ParamsView')
-        if t in ('[u8]',):
+        if t in ('[u8]', 'mut[u8]', 'mut [u8]'):
             return 'slice'
         if t == 'Self':
             return 'Self'
@@ -373,7 +373,10 @@ class Tr:
             a, ta = self.expr(l, env, want)
             b, tb = self.expr(r, env, None)
             if ta == 'lit':
-                raise Untranslatable('shift of untyped literal')
+                dflt = getattr(self, 'lit_default', None)
+                if dflt is None:
+                    raise Untranslatable('shift of untyped literal')
+                ta = dflt
             if isinstance(ta, tuple) and ta[0] == 'nt':
                 ta = ta[2]
             return ('EBin', opn, width(ta), a, b), ta
@@ -798,9 +801,13 @@ class Tr:
                 raise Untranslatable('macro stmt ' + nm)
             if e[0] == 'return':
                 rw, outvars = self.ret_stack[-1]
+                wrap = getattr(self, 'ret_wrap', None) if len(self.ret_stack) == 1 else None
                 if e[1] is None:
-                    return self.wrap_out(('ETup', []), env, outvars)
-                a, t = self.expr(e[1], env, rw)
+                    a = ('ETup', [])
+                else:
+                    a, t = self.expr(e[1], env, rw)
+                if wrap:
+                    return wrap(a)
                 return self.wrap_out(a, env, outvars)
             if e[0] == 'if' and (kind == 'semi' or not last or self.has_return(e) or self.assigned_vars(e)):
                 c, _ = self.expr(e[1], env, 'bool')
